@@ -75,6 +75,59 @@ def _sem_names(outer: FunctionInfo) -> tuple[set[str], list[ast.Call]]:
     return names, ctor
 
 
+def _check_counted_slots(ctx: Ctx, outer: FunctionInfo, h: FunctionInfo, serve_call: ast.Call, maxp: str, label: str) -> bool:
+    """The cap kept as a counter guarded by a Condition (`while serving >= max: cond.wait()`; `serving += 1`; serve;
+    `serving -= 1; cond.notify()`).  Returns False when the handler does not use this idiom."""
+    conds = {t.id for n in walk_scope(outer.node) if isinstance(n, (ast.Assign, ast.AnnAssign)) and n.value is not None and isinstance(n.value, ast.Call) and last_attr(n.value) == "Condition"
+             for t in (n.targets if isinstance(n, ast.Assign) else [n.target]) if isinstance(t, ast.Name)}
+    waits = [c for c in calls(h) if last_attr(c) in ("wait", "wait_for") and isinstance(c.func, ast.Attribute) and isinstance(c.func.value, ast.Name) and c.func.value.id in conds]
+    if not conds or not waits:
+        return False
+    hcfg = cfg_of(h.node)
+    w = waits[0]
+    inst = f"{label}:slot-wait-rechecked"
+    if last_attr(w) == "wait_for":
+        raise AnalysisError(f"C41: Condition.wait_for in {h.fq} is outside the interpreted idiom")
+    loops = enclosing(hcfg, w, (ast.While,))
+    ifs = enclosing(hcfg, w, (ast.If,))
+    guard = next((lp for lp in loops if maxp in names_in(lp.test)), None)  # type: ignore[attr-defined]
+    if guard is None:
+        g_if = next((i for i in ifs if maxp in names_in(i.test)), None)  # type: ignore[attr-defined]
+        ctx.fail("RF-BOUND", inst, h, w, "the handler waits for a free slot under `if`, not `while`: Condition.wait() can return with the predicate false again (two waiters notified for one slot, "
+                 "a newly arrived handler taking the slot first, a spurious wake-up), so more than max_connections connections are served at once" if g_if is not None
+                 else "the wait for a free slot is not guarded by a test of max_connections")
+        return True
+    ctx.hold("RF-BOUND", inst, h, guard, "the slot predicate is re-evaluated after every wake-up (`while ...: cond.wait()`)")
+    counters = sorted(names_in(guard.test) - {maxp} - conds)
+    counters = [c for c in counters if any(isinstance(n, ast.AugAssign) and isinstance(n.target, ast.Name) and n.target.id == c for n in walk_scope(h.node))]
+    if len(counters) != 1:
+        raise AnalysisError(f"C41: cannot identify the slot counter in `{txt(guard.test)}`")
+    cnt = counters[0]
+    try:
+        sem_ok = bool(mini_eval(guard.test, {maxp: 2, cnt: 2})) and not mini_eval(guard.test, {maxp: 2, cnt: 1}) and not mini_eval(guard.test, {maxp: None, cnt: 5}) and bool(mini_eval(guard.test, {maxp: 1, cnt: 3}))
+    except AnalysisError:
+        raise AnalysisError(f"C41: cannot evaluate the slot predicate `{txt(guard.test)}`") from None
+    ctx.check(sem_ok, "RF-BOUND", f"{label}:slot-predicate-is-the-cap", h, guard, ok=f"`{txt(guard.test)}` holds exactly when {cnt} >= max_connections (and never without a cap)",
+              bad=f"`{txt(guard.test)}` does not block exactly when max_connections slots are taken")
+    incs = [n for n in walk_scope(h.node) if isinstance(n, ast.AugAssign) and isinstance(n.target, ast.Name) and n.target.id == cnt and isinstance(n.op, ast.Add)]
+    decs = [n for n in walk_scope(h.node) if isinstance(n, ast.AugAssign) and isinstance(n.target, ast.Name) and n.target.id == cnt and isinstance(n.op, ast.Sub)]
+    if len(incs) != 1 or not decs:
+        raise AnalysisError(f"C41: slot counter `{cnt}` is not incremented once / decremented in {h.fq}")
+    withs_g = [x for x in enclosing(hcfg, guard, (ast.With,))]
+    withs_i = [x for x in enclosing(hcfg, incs[0], (ast.With,))]
+    same_cs = bool(withs_g) and bool(withs_i) and withs_g[0] is withs_i[0]
+    after = hcfg.reach(hcfg.done(guard), include_start=False) & hcfg.attempt(incs[0])
+    ctx.check(same_cs and bool(after), "RF-LOCK", f"{label}:slot-taken-in-the-section-that-tested-it", h, incs[0],
+              ok="the slot is taken in the critical section whose predicate found it free", bad="the slot counter is incremented outside the critical section that tested it: two handlers can take the last slot")
+    dom = not (hcfg.reach({hcfg.entry}, hcfg.done(incs[0])) & hcfg.attempt(serve_call))
+    ctx.check(dom, "RF-DOM", f"{label}:acquire-dominates-serve", h, serve_call, ok="serve runs only after a slot was taken", bad="serve can run without a slot having been taken")
+    fin = [t for t in enclosing(hcfg, serve_call, (ast.Try,)) if t.finalbody and any(any(x is d for x in ast.walk(st)) for st in t.finalbody for d in decs)]  # type: ignore[attr-defined]
+    notifies = [c for c in calls(h) if last_attr(c) in ("notify", "notify_all") and isinstance(c.func, ast.Attribute) and isinstance(c.func.value, ast.Name) and c.func.value.id in conds]
+    ctx.check(bool(fin) and bool(notifies), "RF-PAIR", f"{label}:release-on-every-exit", h, decs[0], ok="the slot is given back (and a waiter notified) in a finally around serve",
+              bad="the slot is not given back in a finally around serve (or no waiter is notified): a failing connection leaks its slot")
+    return True
+
+
 def _check_server_loop(ctx: Ctx, outer: FunctionInfo, label: str, required: bool) -> None:
     ocfg = cfg_of(outer.node)
     h, serve_call = _handler(ctx, outer)
@@ -85,7 +138,12 @@ def _check_server_loop(ctx: Ctx, outer: FunctionInfo, label: str, required: bool
     if not maxp:
         raise AnalysisError(f"anchor=max_connections parameter of {outer.fq}")
     if not sems or not ctors:
-        ctx.fail("RF-BOUND", f"{label}:semaphore-built-from-max-connections", outer, None, "no semaphore is built from max_connections: the number of simultaneously served connections is unbounded even when a cap is configured")
+        if _check_counted_slots(ctx, outer, h, serve_call, maxp[0], label):
+            return
+        readers = [n for f in (outer, *outer.nested.values()) for n in walk_scope(f.node) if isinstance(n, ast.Name) and n.id == maxp[0] and isinstance(n.ctx, ast.Load)]
+        if readers:
+            raise AnalysisError(f"C41: {outer.fq} reads max_connections but enforces it by an idiom outside the interpreted ones (semaphore, or counter + Condition.wait): cannot decide")
+        ctx.fail("RF-BOUND", f"{label}:semaphore-built-from-max-connections", outer, None, "max_connections is never consulted: the number of simultaneously served connections is unbounded even when a cap is configured")
         return
     if len(sems) != 1:
         raise AnalysisError(f"C41: several semaphore variables in {outer.fq}: {sorted(sems)}")
